@@ -183,7 +183,8 @@ def run(chk, prop, theorem_files, knob_sets, n_quick, n_thorough, oracle_keys, n
         chk.cov["samples"].append({"stream": "project", "text": r["text"][:1500],
                                    "tasks": (r["obs"] or {}).get("scenarios", [{}])[0].get("tasks") if r["obs"] and "scenarios" in r["obs"] else None})
     for f in load_known(prop):
-        if f["status"] == "open":
+        if f["status"] == "open" and known_hits.get(f["id"]):
+            # printed only while the finding's witness (first in the corpus) or another case still fails inside its trigger
             chk.known_finding(f["id"], f["line"] if "line" in f else f["what_fails"])
     if post:
         found += post(chk, results) or []
